@@ -1,17 +1,40 @@
 """C01 -- primitive stream codec (DESIGN 3/C01).
 (M) MC_DataX: the reference format is lossless/canonical/self-delimiting for all small programs.
-(A) Trace_DataX: real DataOutputX/DataInputX calls judged byte for byte against the reference format."""
+    MC_DataXKeep: results once read are values (never changed by later reads or by later writes to the output the
+    reader was opened over), the reader's view is apart from late writes, the output accounts for all of its bytes.
+(A) Trace_DataX: real DataOutputX/DataInputX calls judged byte for byte against the reference format; every result
+    that is a reference (slice, string, array) is kept by the harness and looked at again after later calls."""
+from concurrent.futures import ThreadPoolExecutor
 
 
 def body(run):
-    run.mc("MC_DataX", cfg="MC_DataX_thorough.cfg" if run.thorough() else "MC_DataX.cfg", coverage=not run.thorough())
-    if run.thorough():
-        run.mc("MC_DataX", cfg="MC_DataX_thorough3.cfg")
-    out, meta = run.drive("c01")
-    run.absorb(meta)
-    run.validate(out, meta)
-    run.selftest(out, meta, gen="prog")
+    th = run.thorough()
+
+    # the design-level runs do not depend on the driver: they run beside it (one TLC at a time)
+    def design():
+        run.mc("MC_DataX", cfg="MC_DataX_thorough.cfg" if th else "MC_DataX.cfg", coverage=not th, workers=run.pick(4, 16))
+        if th:
+            run.mc("MC_DataX", cfg="MC_DataX_thorough3.cfg")
+
+    def design_keep():
+        run.mc("MC_DataXKeep", cfg="MC_DataXKeep_thorough.cfg" if th else "MC_DataXKeep.cfg", workers=run.pick(4, 16))
+
+    pool = ThreadPoolExecutor(max_workers=run.pick(2, 1))
+    mcs = [pool.submit(design), pool.submit(design_keep)]
+    try:
+        out, meta = run.drive("c01")
+        run.absorb(meta)
+        run.validate(out, meta)
+        run.selftest(out, meta, gen="prog")
+        # a kept result that changed must be rejected (the Again observation is judged, not decoration)
+        run.selftest(out, meta, gen="keep", field="kept", removed=False)
+    finally:
+        pool.shutdown(wait=True)
+    for f in mcs:
+        f.result()        # a failure of the design runs is raised here
     run.assumptions += [
         "values are projected to byte tuples by the harness with encoding/binary and math.Float*bits only (never golib)",
         "TLC judges every recorded call; the 2^24/2^32 pattern sweeps are sampled boundary-biased, not enumerated, in this tier",
+        "a kept result is re-projected from the very object the read returned (slice, string, array), never from a copy; the copy logged with the read itself is taken before any further call",
+        "lengths that need the third byte of a 32-bit length cell (>= 2^24 bytes, blob / int-length bytes) are not driven: one such value is beyond what a trace line can carry",
     ]
